@@ -1,10 +1,10 @@
 package rules
 
 import (
-	"sort"
-	"os"
 	"fmt"
 	"go/token"
+	"os"
+	"sort"
 	"strings"
 
 	"golang.org/x/tools/go/ssa"
